@@ -51,11 +51,13 @@ pub struct AmemWorld {
     lock: Option<(u64, GuestMemoryExclusiveGuard<'static, Map>)>,
     weak: BTreeMap<u64, Weak<Map>>,
     probes: Vec<std::thread::JoinHandle<()>>,
+    /// the waiting updater: (go flag, thread returning (its map became visible after its replace, H4 log of its replace))
+    waiter: Option<(Arc<std::sync::atomic::AtomicBool>, std::thread::JoinHandle<(bool, Vec<bool>)>)>,
 }
 
 impl AmemWorld {
     pub fn new() -> Self {
-        AmemWorld { gm: None, handles: vec![], owners: vec![], lock: None, weak: BTreeMap::new(), probes: vec![] }
+        AmemWorld { gm: None, handles: vec![], owners: vec![], lock: None, weak: BTreeMap::new(), probes: vec![], waiter: None }
     }
     fn handle(&self, kv: &Kv) -> &'static GuestMemoryAtomic<Map> {
         self.handles[kv.us("h") % self.handles.len()]
@@ -91,6 +93,10 @@ impl AmemWorld {
         match kv.op {
             "t.init" => {
                 self.lock = None;
+                if let Some((go, th)) = self.waiter.take() {
+                    go.store(true, std::sync::atomic::Ordering::SeqCst);
+                    let _ = th.join();
+                }
                 self.join_probes();
                 self.owners.clear();
                 self.weak.clear();
@@ -126,24 +132,54 @@ impl AmemWorld {
                 if self.lock.is_none() {
                     let g = self.handle(&kv).lock().unwrap();
                     self.lock = Some((kv.n("t"), g));
-                } else if kv.n("probe") == 1 {
+                } else if kv.n("probe") == 1 && self.waiter.is_none() {
                     // Somebody holds the update lock: a second updater, going through any handle, must wait.
-                    // A helper thread tries; if it gets an exclusive guard while ours is alive, mutual exclusion is broken.
-                    // (When it blocks, as it should, it takes and drops the lock as soon as ours is released.)
+                    // A helper thread calls lock(); if it gets an exclusive guard while ours is alive, mutual exclusion is
+                    // broken.  When it blocks, as it should, it gets the lock once ours is released, waits for
+                    // `t.probedone`, and then replaces the map (new != 0) or just unlocks.
                     let h = self.handle(&kv);
                     let got = Arc::new(std::sync::atomic::AtomicBool::new(false));
-                    let got2 = got.clone();
+                    let go = Arc::new(std::sync::atomic::AtomicBool::new(false));
+                    let (got2, go2, new) = (got.clone(), go.clone(), kv.n("new"));
                     let th = std::thread::spawn(move || {
                         let g = h.lock().unwrap();
                         got2.store(true, std::sync::atomic::Ordering::SeqCst);
-                        drop(g);
+                        while !go2.load(std::sync::atomic::Ordering::SeqCst) {
+                            std::thread::yield_now();
+                        }
+                        if new != 0 {
+                            let _ = vm_memory::verif_hooks::replace_log_take();
+                            g.replace(make_map(new));
+                            (id_of(&h.memory()) == Ok(new), vm_memory::verif_hooks::replace_log_take())
+                        } else {
+                            drop(g);
+                            (true, vec![])
+                        }
                     });
                     std::thread::sleep(std::time::Duration::from_millis(40));
                     if got.load(std::sync::atomic::Ordering::SeqCst) {
                         rec.fail("C11", "lock/second-exclusive-guard-while-held", line);
                     }
                     rec.note("lock_probes");
-                    self.probes.push(th);
+                    self.waiter = Some((go, th));
+                }
+            }
+            "t.probedone" => {
+                // the waiting updater (see `t.lock probe=1`) now holds the lock: let it replace / unlock, and look
+                if let Some((go, th)) = self.waiter.take() {
+                    go.store(true, std::sync::atomic::Ordering::SeqCst);
+                    let (visible, h4) = th.join().unwrap();
+                    let new = kv.n("new");
+                    if new != 0 {
+                        let a = self.gm.unwrap().memory().into_inner();
+                        self.weak.insert(new, Arc::downgrade(&a));
+                        if !visible || id_of(&a) != Ok(new) {
+                            rec.fail("C11", "replace-by-updater-that-waited-not-visible", line);
+                        }
+                        if h4 != vec![true] {
+                            rec.fail("C11", "replace/new-map-stored-without-holding-the-update-lock", &format!("{} h4={:?}", line, h4));
+                        }
+                    }
                 }
             }
             "t.space" => {
@@ -210,8 +246,21 @@ pub fn run(rec: &mut Rec, rng: &mut Rng, n_ops: usize, stress_secs: u64) {
         next_map += 1;
         let mut next_o = 0u64;
         let steps = 10 + rng.below(40);
-        for _ in 0..steps {
+        let mut pending: Option<(u64, u64)> = None;
+        for step_i in 0..steps {
             done += 1;
+            // the last step of a case releases the lock if an updater is waiting for it
+            if step_i + 1 == steps && pending.is_some() {
+                if let Some((t, _)) = &w.lock {
+                    let l = format!("t.unlock t={}", t);
+                    go(&mut w, rec, l);
+                }
+            }
+            if w.lock.is_none() {
+                if let Some((t, new)) = pending.take() {
+                    go(&mut w, rec, format!("t.probedone t={} new={}", t, new));
+                }
+            }
             let owners: Vec<u64> = w.owners.iter().map(|(o, _)| *o).collect();
             let r = rng.below(100);
             let line = if r < 25 || owners.is_empty() && r < 50 {
@@ -225,9 +274,12 @@ pub fn run(rec: &mut Rec, rng: &mut Rng, n_ops: usize, stress_secs: u64) {
             } else if r < 72 {
                 if w.lock.is_some() {
                     // a second updater arrives while the lock is held (a bounded number of timed probes per run)
-                    if probes_left == 0 || !rng.chance(1, 3) { continue; }
+                    if probes_left == 0 || pending.is_some() || !rng.chance(1, 3) { continue; }
                     probes_left -= 1;
-                    format!("t.lock t={} h={} probe=1", 3 + rng.below(3), rng.below(3))
+                    let t = 3 + rng.below(3);
+                    let new = if rng.chance(3, 4) { let id = next_map; next_map += 1 + rng.below(2); id } else { 0 };
+                    pending = Some((t, new));
+                    format!("t.lock t={} h={} probe=1 new={}", t, rng.below(3), new)
                 } else {
                     format!("t.lock t={} h={}", rng.below(3), rng.below(3))
                 }
